@@ -23,6 +23,8 @@ structure CurveLaws : Prop where
   neg_mulG : ∀ a, a < n → neg (mul G a) = mul G ((n - a) % n)
   /-- affine coordinates are field elements; there is no point of order 2 (y ≠ 0) -/
   coords : ∀ k x y, mul G k = some (x, y) → x < p ∧ 0 < y ∧ y < p
+  /-- multiples of `G` satisfy the curve equation y² = x³ + 7 -/
+  onCurve_mulG : ∀ k x y, mul G k = some (x, y) → onCurve (some (x, y)) = true
   /-- `lift_x` returns the even-y point with that x -/
   liftX_mulG : ∀ k x y, mul G k = some (x, y) → liftX x = some (x, if y % 2 = 0 then y else p - y)
   /-- inverses modulo the (prime) group order -/
